@@ -146,34 +146,28 @@ impl<'transient, 'lifespan: 'transient, 'element> ElementSpecification<'element>
         string: &'transient str,
         periodic_table: &'lifespan PeriodicTable,
     ) -> Result<ElementSpecification<'lifespan>, ElementSpecificationParsingError> {
-        let n = string.len();
-        let elt_start = 0;
-        let mut elt_end = n;
-        let mut iso_start = n;
-        let mut iso_end = n;
-        for (i, c) in string.chars().enumerate() {
-            if c == '[' {
-                elt_end = i;
-                if n > i {
-                    iso_start = i + 1;
-                } else {
+        let (elt_sym, isotope) = match string.find('[') {
+            None => (string, 0),
+            Some(i) => {
+                let digits = string[i + 1..]
+                    .strip_suffix(']')
+                    .ok_or(ElementSpecificationParsingError::UnclosedIsotope)?;
+                if !digits.bytes().all(|b| b.is_ascii_digit()) {
                     return Err(ElementSpecificationParsingError::UnclosedIsotope);
                 }
-            } else if c == ']' {
-                iso_end = i;
+                let isotope = digits
+                    .parse::<u16>()
+                    .map_err(|_| ElementSpecificationParsingError::UnclosedIsotope)?;
+                (&string[..i], isotope)
             }
+        };
+        let element = periodic_table
+            .get(elt_sym)
+            .ok_or(ElementSpecificationParsingError::UnknownElement)?;
+        if isotope != 0 && !element.isotopes.contains_key(&isotope) {
+            return Err(ElementSpecificationParsingError::UnknownElement);
         }
-        let elt_sym = &string[elt_start..elt_end];
-        if let Some(element) = periodic_table.get(elt_sym) {
-            let isotope = if iso_start != iso_end {
-                string[iso_start..iso_end].parse::<u16>().unwrap()
-            } else {
-                0
-            };
-            Ok(ElementSpecification::new(element, isotope))
-        } else {
-            Err(ElementSpecificationParsingError::UnknownElement)
-        }
+        Ok(ElementSpecification::new(element, isotope))
     }
 }
 
